@@ -147,6 +147,21 @@ impl Chan {
         }
     }
 
+    // ---- captured variables resolve to the enclosing frame's locals ----
+    pub fn capture(&mut self, d: &[u8]) {
+        let mut over = false;
+        let bound = self.limit;
+        let mut note = |n: usize| {
+            if n > bound {
+                over = true;
+            }
+        };
+        note(d.len());
+        if !over {
+            self.scratch.extend_from_slice(d);
+        }
+    }
+
     // ---- reset completeness: every field of the recycled struct is written ----
     pub fn reset_good(&mut self) {
         self.buf.clear();
